@@ -128,6 +128,19 @@ namespace hv
         }
     };
     template <int K>
+    struct FnK2   // key-consuming, two multiplexed elements
+    {
+        static constexpr auto name = "fnk2";
+        static Port<TS<Int>> compose(Wiring &w, NamedPort<"key", TS<Int>> key, Port<TS<Int>> a, Port<TS<Int>> b)
+        {
+            PortVal r;
+            interpret(w, ctx().graphs.at("fn" + std::to_string(K)),
+                      {PortVal{static_cast<const Port<TS<Int>> &>(key).erased(), PT::Int}, PortVal{a.erased(), PT::Int},
+                       PortVal{b.erased(), PT::Int}}, &r);
+            return Port<TS<Int>>{w, r.ref};
+        }
+    };
+    template <int K>
     struct Fn0
     {
         static constexpr auto name = "fn0";
@@ -198,6 +211,7 @@ namespace hv
         if (n == "fn1") return dispatch_k<Fn1>(k, [](WiredFn f) { return f; });
         if (n == "fn2") return dispatch_k<Fn2>(k, [](WiredFn f) { return f; });
         if (n == "fnk1") return dispatch_k<FnK1>(k, [](WiredFn f) { return f; });
+        if (n == "fnk2") return dispatch_k<FnK2>(k, [](WiredFn f) { return f; });
         if (n == "fn0") return dispatch_k<Fn0>(k, [](WiredFn f) { return f; });
         if (n == "sum") return fn<VSum2>();
         if (n == "max") return fn<VMax2>();
